@@ -9,6 +9,7 @@ mod cpair;
 mod csem;
 mod compile;
 mod den;
+mod htree;
 mod jsval;
 mod member;
 mod proc;
